@@ -1316,9 +1316,9 @@ pub fn harnesses() -> Vec<HarnessDef> {
   }
   add("c06_subject", vec!["C06", "C01", "C17"], "Subject: all operation histories vs the subscriber-set model; len/is_empty/is_finished after a terminal", b6, Box::new(|t| c06_history::<Subject<'static, Val, Val>>(if t { 7 } else { 5 })), 2_000_000, 30_000_000, true);
   add("c06_subject_threads", vec!["C06", "C17"], "SubjectThreads, same histories (single logical thread)", b6, Box::new(|t| c06_history::<SubjectThreads<Val, Val>>(if t { 7 } else { 5 })), 2_000_000, 30_000_000, true);
-  add("c06_mutref_item", vec!["C06"], "MutRefItemSubject", b6, Box::new(|t| c06_history::<MutRefItemSubject<'static, Val, Val>>(if t { 6 } else { 4 })), 2_000_000, 10_000_000, true);
-  add("c06_mutref_err", vec!["C06"], "MutRefErrSubject", b6, Box::new(|t| c06_history::<MutRefErrSubject<'static, Val, Val>>(if t { 6 } else { 4 })), 2_000_000, 10_000_000, true);
-  add("c06_mutref_item_err", vec!["C06"], "MutRefItemErrSubject", b6, Box::new(|t| c06_history::<MutRefItemErrSubject<'static, Val, Val>>(if t { 6 } else { 4 })), 2_000_000, 10_000_000, true);
+  add("c06_mutref_item", vec!["C06"], "MutRefItemSubject", b6, Box::new(|t| c06_history::<MutRefItemSubject<'static, Val, Val>>(if t { 6 } else { 5 })), 2_000_000, 10_000_000, true);
+  add("c06_mutref_err", vec!["C06"], "MutRefErrSubject", b6, Box::new(|t| c06_history::<MutRefErrSubject<'static, Val, Val>>(if t { 6 } else { 5 })), 2_000_000, 10_000_000, true);
+  add("c06_mutref_item_err", vec!["C06"], "MutRefItemErrSubject", b6, Box::new(|t| c06_history::<MutRefItemErrSubject<'static, Val, Val>>(if t { 6 } else { 5 })), 2_000_000, 10_000_000, true);
   fn b12(t: bool) -> String {
     format!("{} operations from next / next_by / clone / subscribe / unsubscribe / peek / complete / error over <=3 clones and 3 subscribers; symbolic values", if t { 7 } else { 5 })
   }
